@@ -186,9 +186,10 @@ def _matrix(draw, kind, n):
     A[0, 1] = True
     if not directed:
         A[1, 0] = True
+    unit = draw(st.sampled_from([1.0, 2.0 ** -30, 1.0, 2.0 ** 40]))     # every consumer here is a ratio: the unit of the weights is irrelevant
     if kind == "sign":
-        return draw(gen.weights_for(A, "signed", False))
-    return draw(gen.weights_for(A, draw(st.sampled_from(["bin", "dyadic", "float"])), directed))
+        return draw(gen.weights_for(A, "signed", False)) * unit
+    return draw(gen.weights_for(A, draw(st.sampled_from(["bin", "dyadic", "float"])), directed)) * unit
 
 
 @st.composite
